@@ -18,7 +18,7 @@ class Prop(BaseProp):
     theorems = ["C17_format_parse_id", "C17_marker_equiv", "C17_wrong_root_rejected", "C17_bad_component_rejected",
                 "C17_empty_inner_rejected", "C17_out_of_range_rejected", "C17_by_path_is_fold_ckd", "C17_deep_path_refuted"]
     exec_modules = ["Exec.C17"]
-    extra_modules = {"C17Src": ["C17_source_convert_hardened_is_model", "C17_source_component_range", "C17_source_out_of_range_raises", "C17_source_translated"]}
+    extra_modules = {"C17Src": ["C17_source_convert_hardened_is_model", "C17_source_component_range", "C17_source_out_of_range_raises", "C17_source_parse_is_model", "C17_source_repr_is_model", "C17_source_constructor", "C17_source_format_parse_id", "C17_source_malformed_raises", "C17_source_translated"]}
     pysem_funcs = ["wallet_utils.Bip32Path.convert_hardened", "wallet_utils.Bip32Path.is_hardened", "wallet_utils.Bip32Path.is_private",
                    "wallet_utils.list_get", "wallet_utils.Bip32Path._to_list", "wallet_utils.Bip32Path.to_list", "wallet_utils.Bip32Path.integrity_check",
                    "wallet_utils.Bip32Path.__init__", "wallet_utils.Bip32Path.m", "wallet_utils.Bip32Path.repr_hardened",
